@@ -31,14 +31,12 @@ theorem trace_indep (k k' : L4) (hk : Hand.Scalar.isOne k = false) (hk' : Hand.S
     schedule (some k) = schedule (some k') := by
   simp [schedule, hk, hk']
 
-/-- the common schedule is the full ladder: prefix, 256 identical iterations (one complete addition and one
-complete doubling each), suffix -/
+/-- the common schedule is the full ladder: a prefix (the `IsOne` test, the two registers, the bit expansion — in whatever
+order the source has them), 256 identical iterations (one complete addition and one complete doubling each), a suffix -/
 theorem full_schedule_shape :
-    TraceFacts.multiplyAlternatives.getD 2 [] =
-      TraceFacts.tr_secp_Scalar_IsOne ++ TraceFacts.tr_secp_newElement ++ TraceFacts.tr_secp_Element_copy ++
-      TraceFacts.tr_secp_Scalar_Bits ++
-      (List.replicate 256 (TraceFacts.tr_secp_Element_Add ++ TraceFacts.tr_secp_Element_Double)).flatten ++
-      TraceFacts.tr_secp_Element_set := rfl
+    TraceFacts.multiplyAlternatives.getD 2 [] = TraceFacts.ladderPrefix ++ TraceFacts.ladderLoops ++ TraceFacts.ladderSuffix ∧
+    TraceFacts.ladderLoops =
+      (List.replicate 256 (TraceFacts.tr_secp_Element_Add ++ TraceFacts.tr_secp_Element_Double)).flatten := ⟨rfl, rfl⟩
 
 /-- one ladder iteration performs a fixed, non-empty amount of work -/
 theorem iteration_work :
@@ -51,10 +49,9 @@ theorem length_flatten_replicate (n : Nat) (l : List String) : (List.replicate n
 
 /-- total amount of work of the common schedule: 24 entries outside the loop + 256 × 308 -/
 theorem full_schedule_length (k : L4) (hk : Hand.Scalar.isOne k = false) : (schedule (some k)).length = 78872 := by
-  have e1 : (TraceFacts.tr_secp_Scalar_IsOne ++ TraceFacts.tr_secp_newElement ++ TraceFacts.tr_secp_Element_copy ++
-      TraceFacts.tr_secp_Scalar_Bits).length + TraceFacts.tr_secp_Element_set.length = 24 := by decide +kernel
+  have e1 : TraceFacts.ladderPrefix.length + TraceFacts.ladderSuffix.length = 24 := by decide +kernel
   have hs : schedule (some k) = TraceFacts.multiplyAlternatives.getD 2 [] := by simp [schedule, hk]
-  rw [hs, full_schedule_shape]
+  rw [hs, full_schedule_shape.1, full_schedule_shape.2]
   have hw := iteration_work
   simp only [List.length_append, length_flatten_replicate] at hw e1 ⊢
   omega
